@@ -42,7 +42,11 @@ func defsC10(tier string) []*ph.Def {
 				if ro && mode != 0 && tier != "thorough" {
 					continue
 				}
-				d := &ph.Def{Mode: mode, Unknown: 2, RequireOrder: ro, Root: ph.CmdDef{Name: "prog", NoFn: rootNoFn,
+				unknown := 2
+				if ro && mode == 0 {
+					unknown = 1 // require-order with warnings: an unknown option is a stop point like any other
+				}
+				d := &ph.Def{Mode: mode, Unknown: unknown, RequireOrder: ro, Root: ph.CmdDef{Name: "prog", NoFn: rootNoFn,
 					Opts: []ph.OptDef{{Name: "ra", Kind: ph.Bool}, {Name: "rs", Kind: ph.Str, DefS: "RD"}, {Name: "oo", Kind: ph.StrOpt, DefS: "OD"}, {Name: "sl", Kind: ph.StrS, Min: 1, Max: 2}, {Name: "cax", Kind: ph.Bool}}, // `--ca` abbreviates cax at the root and is the exact name of a command option
 					Cmds: cmds}}
 				out = append(out, d)
@@ -193,7 +197,7 @@ func init() {
 				depth = 5
 			}
 			alpha := []string{"c1", "c2", "s1", "s2", "--ra", "--rs", "--rs=c1", "--oo", "--oo=x", "--ca", "--cs", "--sa", "p", "--", "--sl"}
-			ext := []string{"ze", "zeta", "c"} // unique and ambiguous beginnings of command names
+			ext := []string{"ze", "zeta", "c", "--zz"} // unique and ambiguous beginnings of command names; an unknown option
 			defs := defsC10(c.Tier)
 			c.Res.Bounds = map[string]any{"L": depth, "alphabet": alpha, "definitions": len(defs)}
 			sw := &sweep{c: c, defs: defs, alpha: alpha, ext: ext, depth: depth}
